@@ -19,6 +19,7 @@ import SympdeModel.Model.Topology
 import SympdeModel.Model.Union
 import SympdeModel.Model.Export
 import SympdeModel.Model.Memo
+import SympdeModel.Model.Broadcast
 open Sympde
 
 def dispatch (line : String) : String :=
@@ -42,6 +43,7 @@ def dispatch (line : String) : String :=
       | "C14" => USet.handle args
       | "C15" => Export.handle args
       | "C12" => Memo.handle args
+      | "C16" => Bcast.handle args
       | _ => "bad-model"
   | some _ => "bad-line"
 
